@@ -167,7 +167,7 @@ def h_quasi_outer(ctx, n, is_eigh, use_stab):
     ctx.claim('error_le_rss_of_best', ctx.le(err2, rss))
 
 
-def h_add_many(ctx, n, trunc_freq):
+def h_add_many(ctx, n, trunc_freq, cap=None):
     """add_many on disjoint-support rank-1 summands (d = 3): the sum is the
     super-diagonal tensor; the final rounding obeys the bound."""
     d = 3
@@ -188,7 +188,11 @@ def h_add_many(ctx, n, trunc_freq):
     e = ctx.real('e')
     ctx.assume(ctx.gt(e, 0))
     ctx.assume(ctx.lt(e, 1))
-    Z = teneva.add_many(Ys, e=e, trunc_freq=trunc_freq)
+    if cap is None:
+        Z = teneva.add_many(Ys, e=e, trunc_freq=trunc_freq)
+    else:
+        Z = teneva.add_many(Ys, e=e, r=cap, trunc_freq=trunc_freq)
+        ctx.claim('rank_le_cap', all(G.shape[2] <= max(1, cap) for G in Z))
     ctx.claim('well_formed', well_formed(Z, [n] * d))
     F0 = zeros(ctx, (n,) * d)
     for i in range(n):
@@ -197,7 +201,8 @@ def h_add_many(ctx, n, trunc_freq):
     err2 = sumsq(ref_full(Z) - F0)
     steps = (n - 1) // trunc_freq + 1
     # each rounding step adds at most e * (norm of what it rounds) <= e * ||sum||
-    ctx.claim('error_bound_accumulated', ctx.le(err2, e * e * nrm2 * steps * steps))
+    if cap is None:
+        ctx.claim('error_bound_accumulated', ctx.le(err2, e * e * nrm2 * steps * steps))
     ctx.claim('finite', finite(ctx, Z))
 
 
@@ -244,6 +249,7 @@ def instances(tier):
                                                    'shift': 1, 'lead': False}})
     for n, tf in ([(2, 1), (2, 15)] if quick else [(2, 1), (2, 15), (3, 1), (3, 2)]):
         out.append({'func': 'h_add_many', 'params': {'n': n, 'trunc_freq': tf}})
+        out.append({'func': 'h_add_many', 'params': {'n': n, 'trunc_freq': tf, 'cap': 1}})
     return out
 
 
